@@ -121,7 +121,7 @@ fn leaf_name(r1: usize, c1: usize, r2: usize, c2: usize) -> String {
 
 pub fn run(run: &Run) {
     run.rule("every shape pair (r1,c1,r2,c2) × {+,-,*,/} × Matrix∘Matrix / Matrix∘Vector / Vector∘Matrix × 4 ownership forms; left entries distinct primes, right entries distinct other primes + 0.5; oracle = NumPy rule, bitwise; non-trivial = shapes differ (stretch or rejection expected)");
-    let d = run.tier.pick(6usize, 10usize);
+    let d = run.tier.pick(6usize, 20usize);
     run.bound("shape pairs", format!("(r1,c1,r2,c2) in 1..={}^4{}", d, if run.thorough() { " plus {1,2,7,8,9,15,16,17,31,33,40}^4" } else { " plus {1,2,8,9,16,17,40}^4" }) + "; 9 shapes with more than 1024 elements (not a multiple of 8) × 6 equal / stretched partners");
     let mut pairs = Vec::new();
     for r1 in 1..=d {
@@ -184,7 +184,7 @@ pub fn run(run: &Run) {
     });
 
     // Matrix ∘ Vector and Vector ∘ Matrix: the vector is a single row
-    let vl = run.tier.pick(8usize, 12usize);
+    let vl = run.tier.pick(8usize, 20usize);
     let mut mv = Vec::new();
     for r in 1..=d {
         for c in 1..=d {
